@@ -1766,10 +1766,11 @@ theorem takeFocus_safe {t : Tree} (hi : TInv t) (hd : DragOK t) {win : WinTree.I
 /-! ### the application's actions -/
 
 /-- The mutations covered: what the property names (close, unref), plus ref, hide, show, steal-input, the four
-    restacking requests and `take_focus` — every action of the engine's vocabulary (`actOK_all`). -/
+    restacking requests, `take_focus` and `set_geometry` — every action of the engine's vocabulary (`actOK_all`). -/
 def ActOK (a : Action) : Prop :=
   a.act = .close ∨ a.act = .unref ∨ a.act = .keep ∨ a.act = .hide ∨ a.act = .unhide ∨ a.act = .stealOn ∨ a.act = .stealOff ∨
-  a.act = .raise ∨ a.act = .raiseFront ∨ a.act = .lower ∨ a.act = .lowerBack ∨ a.act = .focus
+  a.act = .raise ∨ a.act = .raiseFront ∨ a.act = .lower ∨ a.act = .lowerBack ∨ a.act = .focus ∨
+  (∃ dt dl dn dc, a.act = .geom dt dl dn dc)
 
 theorem actOK_all (a : Action) : ActOK a := by
   unfold ActOK
@@ -1848,8 +1849,8 @@ theorem doAction_safe {st : St} {held : List WinTree.Id} (h : AInv st held) {a :
       unfold allowed at hal'
       simp only [hw, hf, Bool.false_eq_true, if_false] at hal'
       rcases hk with hk | hk | hk | hk | hk <;> simp only [hk] at hal' <;> exact attached_att h.tree _ _ hal'
-    rcases ha with ha | ha | ha | ha | ha | ha | ha | ha | ha | ha | ha | ha <;> simp only [ha]
-    rotate_right 5
+    rcases ha with ha | ha | ha | ha | ha | ha | ha | ha | ha | ha | ha | ha | ⟨dt, dl, dn, dc, ha⟩ <;> simp only [ha]
+    rotate_right 6
     · exact stepTo _ ((request_safe h.tree h.drag _ (Or.inl rfl) hAl (hatt (Or.inl ha))).mono fun _ x => x.1)
     · exact stepTo _ ((request_safe h.tree h.drag _ (Or.inr (Or.inl rfl)) hAl (hatt (Or.inr (Or.inl ha)))).mono fun _ x => x.1)
     · exact stepTo _ ((request_safe h.tree h.drag _ (Or.inr (Or.inr (Or.inl rfl))) hAl
@@ -1857,6 +1858,8 @@ theorem doAction_safe {st : St} {held : List WinTree.Id} (h : AInv st held) {a :
     · exact stepTo _ ((request_safe h.tree h.drag _ (Or.inr (Or.inr (Or.inr rfl))) hAl
         (hatt (Or.inr (Or.inr (Or.inr (Or.inl ha)))))).mono fun _ x => x.1)
     · exact stepTo _ (takeFocus_safe h.tree h.drag hAl (hatt (Or.inr (Or.inr (Or.inr (Or.inr ha))))))
+    · -- set_geometry: one field of one live window
+      exact flag _ (fun w => ⟨rfl, rfl, rfl, rfl, rfl, rfl, rfl⟩)
     · -- close
       apply SafeR.bind (close_safe h.tree h.drag (treeFuel st.tree) (by unfold treeFuel; omega) hw hf)
       intro t' ⟨s, _⟩
